@@ -213,20 +213,25 @@ func (a *SparseReal64Matrix) Set(b ConstMatrix) {
   if n1 != n2 || m1 != m2 {
     panic("Copy(): Matrix dimension does not match!")
   }
-  for it := a.Iterator(); it.Ok(); it.Next() {
+  if ConstMatrix(a) == b {
+    return
+  }
+  // clear all entries of the receiver and copy the entries of b (looping
+  // over the entries of the receiver alone would never create an entry)
+  a.Reset()
+  for it := b.ConstIterator(); it.Ok(); it.Next() {
     i, j := it.Index()
-    it.Get().Set(b.ConstAt(i, j))
+    a.At(i, j).Set(it.GetConst())
   }
 }
 func (matrix *SparseReal64Matrix) SetIdentity() {
   c := NewScalar(matrix.ElementType(), 1.0)
-  for it := matrix.Iterator(); it.Ok(); it.Next() {
-    i, j := it.Index()
-    if i == j {
-      it.Get().Set(c)
-    } else {
-      it.Get().Reset()
-    }
+  // clear all entries and create the diagonal (looping over the entries of
+  // the receiver alone would never create an entry)
+  matrix.Reset()
+  n, m := matrix.Dims()
+  for i := 0; i < n && i < m; i++ {
+    matrix.At(i, i).Set(c)
   }
 }
 func (matrix *SparseReal64Matrix) Reset() {
